@@ -96,6 +96,71 @@ fn one_case(ctx: &mut Ctx, idx: u64, r: &mut Rng) {
 	}
 }
 
+/// Two families aimed at what depends on where chunk boundaries fall. (0) "Gap" scenes: one sound - a burst, a stretch of exact
+/// digital silence longer than a chunk, another burst - through one effect with memory (a compressor that really compresses, a
+/// delay with a filter in its feedback loop, a reverb, a resonant filter): whatever an effect does with an all-zero chunk, the
+/// rendering must not depend on whether a chunk happened to be all zero. (1) A plain sound at a fixed playback rate that is not a
+/// power of two (1.5, 0.75, 1.25, 3, 0.9, 0.6), rendered in chunks whose length is not a power of two: bit-exact.
+fn special_case(r: &mut Rng) -> Result<(), String> {
+	use crate::rig::{Rig, RigConfig};
+	use kira::effect::compressor::CompressorBuilder;
+	use kira::effect::delay::DelayBuilder;
+	use kira::effect::filter::FilterBuilder;
+	use kira::effect::reverb::ReverbBuilder;
+	use kira::track::MainTrackBuilder;
+	use std::time::Duration;
+	let sr = *r.pick(&[22050u32, 44100, 48000]);
+	let kind = r.below(2);
+	let fx = r.below(4);
+	let rate = if kind == 0 { 1.0 } else { *r.pick(&[1.5f64, 0.75, 1.25, 3.0, 0.9, 0.6]) };
+	let frames: Vec<kira::Frame> = if kind == 0 {
+		let (n1, gap, n3) = (r.usize_in(200, 1200), r.usize_in(300, 5000), r.usize_in(200, 1200));
+		let mut f = crate::probes::noise_frames(r.next(), n1, 0.5);
+		f.extend(vec![kira::Frame::ZERO; gap]);
+		f.extend(crate::probes::noise_frames(r.next(), n3, 0.5));
+		f
+	} else {
+		crate::probes::noise_frames(r.next(), r.usize_in(1500, 4000), 0.5)
+	};
+	let total = (((frames.len() as f64 / rate) as usize) + 500).min(9000);
+	let fx_name = if kind == 1 { "no effect" } else { ["compressor (-30 dB, 6:1, 5 ms / 80 ms)", "delay 10 ms, feedback -6 dB through a 1 kHz low-pass", "reverb", "resonant low-pass at 800 Hz"][fx as usize] };
+	let run = |ibs: usize, sizes: &[usize]| -> Result<Vec<f32>, String> {
+		let mut mb = MainTrackBuilder::new();
+		if kind == 0 {
+			mb = match fx {
+				0 => mb.with_effect(CompressorBuilder::new().threshold(-30.0).ratio(6.0).attack_duration(Duration::from_millis(5)).release_duration(Duration::from_millis(80))),
+				1 => mb.with_effect(DelayBuilder::new().delay_time(Duration::from_millis(10)).feedback(kira::Decibels(-6.0)).mix(kira::Mix(0.5)).with_feedback_effect(FilterBuilder::new().cutoff(1000.0))),
+				2 => mb.with_effect(ReverbBuilder::new().mix(kira::Mix(0.5))),
+				_ => mb.with_effect(FilterBuilder::new().cutoff(800.0).resonance(0.4)),
+			};
+		}
+		let mut rig = Rig::new(RigConfig { sample_rate: sr, ibs, channels: 2, ..Default::default() }, mb);
+		rig.mgr.play(crate::probes::sound_from_frames(sr, frames.clone()).playback_rate(rate)).map_err(|_| "play")?;
+		let mut out = Vec::with_capacity(total * 2);
+		let (mut done, mut i) = (0, 0);
+		while done < total {
+			let n = sizes[i % sizes.len()].max(1).min(total - done);
+			i += 1;
+			out.extend_from_slice(rig.callback(n));
+			done += n;
+		}
+		Ok(out)
+	};
+	let want = run(128, &[128])?;
+	for _ in 0..3 {
+		let ibs = *r.pick(&IBS);
+		let sizes = if kind == 1 { r.pick(&[vec![100usize], vec![37, 5], vec![441], vec![ibs * 2 + 1, 3]]).clone() } else { gen_sizes(r, ibs) };
+		let got = run(ibs, &sizes)?;
+		for f in 0..total * 2 {
+			let ok = if kind == 0 { (got[f] - want[f]).abs() <= 1e-6 } else { got[f].to_bits() == want[f].to_bits() || got[f] == want[f] };
+			if !ok {
+				return Err(format!("{} / playback rate {} ({} Hz): internal buffer {} / callbacks {:?} differs from the reference (buffer 128) at frame {}: {:e} vs {:e}{}", fx_name, rate, sr, ibs, sizes, f / 2, got[f], want[f], if kind == 0 { " [> 1e-6]" } else { " [must be bit-exact]" }));
+			}
+		}
+	}
+	Ok(())
+}
+
 pub fn run(ctx: &mut Ctx) {
 	let n = ctx.t(12_000u64, 1_000_000u64);
 	for i in 0..n {
@@ -111,7 +176,30 @@ pub fn run(ctx: &mut Ctx) {
 		one_case(ctx, i, &mut r);
 		crate::monitors::clear_current();
 	}
-	let _ = J::Null;
+	let ns = ctx.t(1_600u64, 160_000u64);
+	let mut special = 0u64;
+	for i in 0..ns {
+		if !ctx.owns("special", i) {
+			continue;
+		}
+		if !ctx.replaying() && !ctx.time_left(0.98) {
+			break;
+		}
+		let mut r = Rng::for_case(ctx.seed, 1102, i);
+		ctx.eval();
+		crate::monitors::set_current(ctx, "special", i, "gap / dyadic-rate scene", false);
+		let res = super::guarded(|| special_case(&mut r));
+		crate::monitors::clear_current();
+		match res {
+			Ok(Ok(())) => {
+				special += 1;
+				ctx.distinct_key(0xC11_0002_0000 | (i % 32));
+			}
+			Ok(Err(e)) => ctx.violation("special", i, &e, J::Null),
+			Err(p) => ctx.violation("special", i, &format!("panic while rendering: {}", p.first().map(|p| p.sig()).unwrap_or_default()), J::Null),
+		}
+	}
+	ctx.count("gap_and_dyadic_rate_scenes", special);
 }
 
 pub fn confirm(_key: &str) -> Option<Option<String>> {
